@@ -141,3 +141,77 @@ def tile_construction_sites(project):
             elif d.endswith("Tile._make"):
                 out.append((f, c, "Tile._make(...)"))
     return out
+
+
+
+def _mentions_coordsys(t):
+    """Does the term talk about a TOAST coordinate system (an enum member, a `coordsys` key / attribute)?"""
+    if not isinstance(t, tuple) or not t:
+        return False
+    if t[0] == "attr" and (t[1] == ("sym", "ToastCoordinateSystem") or "coordsys" in t[2]):
+        return True
+    if t[0] == "const" and t[1] == "coordsys":
+        return True
+    if t[0] == "sym" and isinstance(t[1], str) and "coordsys" in t[1]:
+        return True
+    return any(_mentions_coordsys(x) for x in t if isinstance(x, tuple))
+
+
+def coordsys_forwarding(run, rule, modules=None, only_callers=None):
+    """Whoever has a coordinate system in hand passes it to every project function that takes one.  Package-wide: for every
+    call site whose callee has a `coordsys` parameter (by parameter binding; keyword, positional or through **kwargs), a caller
+    that itself receives `coordsys` must pass exactly that; a caller that computes one (from ToastCoordinateSystem members,
+    from a `coordsys` entry of its keyword dictionary, from an attribute holding it) must pass *something* -- leaving it out
+    makes the callee fall back to its default system.  Returns the number of call sites examined."""
+    project = run.project
+    n = 0
+    evs = {}
+    for f in project.py_funcs():
+        if "/tests/" in (f.module.relpath or "") or (modules is not None and f.module.name not in modules):
+            continue
+        if only_callers is not None and f.qual not in only_callers:
+            continue
+        src_names = {x.attr for x in ast.walk(f.node) if isinstance(x, ast.Attribute)} | {x.id for x in ast.walk(f.node) if isinstance(x, ast.Name)} \
+            | {x.arg for x in ast.walk(f.node) if isinstance(x, ast.keyword) and x.arg}
+        if not any("coordsys" in (nm or "") for nm in src_names) and "ToastCoordinateSystem" not in src_names:
+            continue
+        ev = evs.get(f.module.name)
+        if ev is None:
+            ev = evs[f.module.name] = sym.make_evaluator(project, f.module.name, [])
+        ev.self_class = (f.module.name + "." + f.cls.name) if getattr(f, "cls", None) is not None else None
+        try:
+            r = ev.run(f.node)
+        except Exception:
+            continue
+        own = ("sym", "coordsys") if "coordsys" in f.params() else None
+        popped = set()      # keyword dictionaries from which the entry was taken out
+        for e in r.events:
+            if e.kind == "call" and e.term[1][0] == "attr" and e.term[1][2] == "pop" and e.term[2] and e.term[2][0] == ("const", "coordsys"):
+                popped.add(e.term[1][1])
+        knows = own is not None or any(_mentions_coordsys(e.term) for e in r.events if e.kind in ("call", "assign", "store"))
+        for e in r.events:
+            if e.kind != "call":
+                continue
+            g, binding = ev.bound_args(e.term)
+            if g is None or "coordsys" not in g.params():
+                continue
+            n += 1
+            run.call_sites += 1
+            run.note_func(f)
+            star = [v for k, v in e.term[3] if k == "**"]
+            if binding is None:
+                run.undecided(rule, f, e.node, "cannot bind the arguments of %s" % show(e.term)[:80], kind="coordsys-binding")
+            elif "coordsys" not in binding:
+                if star and not any(sv in popped for sv in star):
+                    run.holds(rule, f, e.node, "%s passes its keyword dictionary (with any coordsys entry) on to %s" % (f.short, g.short))
+                elif knows:
+                    run.violated(rule, f, e.node, "%s calls %s without the coordinate system it has in hand: the callee falls back to its default and works on the "
+                                 "tiles of the other system" % (f.short, g.short), kind="coordsys-dropped", callee=g.short)
+                else:
+                    run.holds(rule, f, e.node, "%s has no coordinate system of its own; %s uses its documented default" % (f.short, g.short))
+            elif own is not None and binding["coordsys"] != own:
+                run.violated(rule, f, e.node, "%s passes coordsys=%s to %s instead of its own coordsys parameter" % (
+                    f.short, show(binding["coordsys"])[:60], g.short), kind="coordsys-replaced", callee=g.short)
+            else:
+                run.holds(rule, f, e.node, "%s hands its coordinate system to %s" % (f.short, g.short))
+    return n
